@@ -580,6 +580,10 @@ def install_numpy(I):
     A["where"] = Builtin("np.where", where)
 
     def hstack(I_, a, k):
+        # dtype= / casting= : the pieces here are integer index or label arrays already; any other dtype is not modelled
+        dt = k.get("dtype")
+        if dt is not None and not str(getattr(dt, "name", dt)).startswith(("int", "intp")):
+            raise Unsupported(f"np.hstack(dtype={dt!r})")
         parts = list(a[0])
         if not any(isinstance(x, SArr) for x in parts):
             # index bookkeeping lists of the exchange context: keep them as python lists of pieces
@@ -633,6 +637,9 @@ def install_numpy(I):
     A["union1d"] = Builtin("np.union1d", union1d)
 
     def setdiff1d(I_, a, k):
+        # assume_unique=True is an optimisation hint: correct when both operands hold distinct values (the candidate set does by
+        # construction; the excluded labels are the distinct labels already displaced, C11)
+        _ = k.get("assume_unique")
         U, xs = a[0], a[1]
         if isinstance(U, LabelSet):
             vals = list(xs.data) if isinstance(xs, Tensor) else list(xs)
